@@ -12,7 +12,7 @@ PROPS = {
         "explanation": "exhaustive: all 256^2 pairs of mul/div/add, fma for 6 accumulators x all pairs, all 258 alpha exponents, all three derived tables; 256^3 triples for associativity/distributivity are covered by the Field instance (theorem) and replayed directly on the implementation",
     },
     "C15": {
-        "thm_modules": ["Rq.Thm.C15", "Rq.Thm.Tables"],
+        "thm_modules": ["Rq.Thm.C15", "Rq.Thm.C15b", "Rq.Thm.Tables"],
         "engines": [("params", "release"), ("params", "debug"), ("tables", "release")],
         "modelled": ["u32 arithmetic as naturals with explicit wrap (release) / error (checked build)", "the `for`/`while` loops of enc_indices as fuel recursion (termination is theorem skipPi_terminates)"],
         "assumptions": [RFC_TABLES, "systematic constants: exhaustive over K = 0..56404; tuples: boundary-directed + random X per sampled Table-2 row, in a checked and an unchecked build"],
@@ -47,6 +47,18 @@ PROPS = {
         "modelled": ["Mutex = mutual exclusion: each of the two critical sections is one atomic step; lock poisoning ignored", "HashMap as an association list with distinct keys, VecDeque as a list, Arc<Plan> as the plan value", "plan generation as a pure function gen : K -> Plan"],
         "assumptions": ["real threads are parked at the yield hook between the critical sections and released one step at a time along seeded schedules (all 20 interleavings of two racing requests, eviction races at capacity-1/capacity/capacity+1, lost race followed by > capacity sizes, random schedules), plus a free-running 8-thread soak"],
     },
+    "C09": {
+        "thm_modules": ["Rq.Thm.C09"],
+        "engines": [("linear", "release"), ("plan", "release"), ("slab", "release"), ("kernels", "release")],
+        "modelled": ["SymbolSlab as an array of symbols + optional logical->physical mapping (the contiguous Vec<u8> and the paired borrow are C12's subject)"],
+        "assumptions": ["symbol size is a parameter of every theorem; the metamorphic relations are also checked directly on the implementation for every residue of T modulo 64 up to 4*64+6"],
+    },
+    "C18": {
+        "thm_modules": ["Rq.Thm.C18"],
+        "engines": [("repair", "release"), ("repair", "debug"), ("object", "release")],
+        "modelled": ["u32 additions of repair_packets with explicit overflow / the 24-bit assert of PayloadId::new"],
+        "assumptions": ["solver_irrelevant carries the explicit hypothesis that the standard system of this block is consistent (true whenever A(K') is invertible; evaluated for all 477 K' by C06's engine, not a kernel theorem)"],
+    },
     "C13": {
         "thm_modules": ["Rq.Thm.C13"],
         "engines": [("wire", "release")],
@@ -64,8 +76,6 @@ PROPS = {
 # --- temporary engine-only entries (theorem modules follow)
 for _p, _e in {"C01": ["decblk", "decobj"], "C02": ["decblk", "overhead"], "C04": ["cm", "enc", "params"], "C05": ["partition", "object"],
                "C06": ["inter", "plan"], "C08": ["decblk", "decobj"], "C18": ["repair", "object"], "C14": ["genparams"], "C15": ["params"]}.items():
-    PROPS.setdefault(_p, {"thm_modules": [], "engines": [(e, "release") for e in _e]})
-for _p, _e in {"C11": ["kernels"], "C12": ["kernels", "slab"], "C09": ["linear", "plan", "slab", "kernels"]}.items():
     PROPS.setdefault(_p, {"thm_modules": [], "engines": [(e, "release") for e in _e]})
 PROPS.setdefault("C03", {"thm_modules": [], "engines": [("overhead", "release")], "level": "other"})
 PROPS.setdefault("C16", {"thm_modules": [], "engines": [("matrices", "release"), ("matrices", "debug")]})
